@@ -33,6 +33,7 @@ pub fn prop() -> HistProp {
         thorough: 40000,
         mk: |_, _, _| Box::new(C16 { allowance_op: false, hub_burn: false }),
         extra: None,
+        many_batches: 0,
     }
 }
 
